@@ -4,6 +4,7 @@ import MosnVerif.Model.Transfer
 import MosnVerif.Model.H2GoAway
 import MosnVerif.Model.TransferLookup
 import MosnVerif.Drive.C11Upgrade
+import MosnVerif.Drive.C11Drain
 /-! `mosnmodel` driver for C11: evaluates the models on one case line and the property predicate (`Spec…`, written
 against literal reference values, never against regenerated code) on the implementation's output. -/
 namespace MosnVerif.Drive.C11
@@ -505,6 +506,8 @@ end h2ga
 def run (caseToks impl : List String) : String :=
   match caseToks with
   | ["h2ga", evs] => h2ga evs impl
+  | ["h1d", evs] => C11D.h1d evs impl
+  | ["h2gw", evs] => C11D.h2gw evs impl
   | ["th", a, b] => th a b impl
   | ["tr", d, t, r] => tr d t r impl
   | ["tw", i, d, r] => tw i d r impl
